@@ -253,6 +253,59 @@ def r06_3(chk, tier):
                          '`length >= min_length_for_stringref(%s)` and append under it' % (f['n'], A.text(nd.ast)[:70], appends, want_arg), None, f['q'])
     chk.require(n_enc >= 2 and n_dec >= 3, 'R06.3: stringref tests found: encoder %d, decoder %d' % (n_enc, n_dec))
 
+def r06_4(chk, tier):
+    chk.rule('R06.4', 'CBOR tag symmetry: for every semantic tag the encoder writes as CBOR tag N on a text or byte string, the decoder maps '
+                      'tag N on that major type back to the same semantic tag', floor=7)
+    facts = F.load(['cbor'], tier)
+    st = U.enum_by_suffix(F.load(['core'], tier), '::semantic_tag')
+    tags = dict(st['values']); names = {v: k for k, v in st['values']}
+    def enc_table(fname, nparams):
+        out = {}
+        fns = [f for f in U.functions(facts, cls='basic_cbor_encoder', name=fname) if len(f['params']) == nparams and f.get('body') is not None]
+        chk.require(fns, 'basic_cbor_encoder::%s not found' % fname)
+        fn = U.one_per_inst(fns)[0]
+        chk.analysed(fn)
+        for name, v in st['values']:
+            pe = P.PEval(facts, fn, bind={'tag': v}, max_depth=1)
+            try: pe.exec_body(fn, {})
+            except P.Stop: pass
+            wt = [e.args[0] for e in pe.effects if e.kind == 'call' and e.name == 'write_tag' and not e.guards and e.args and isinstance(e.args[0], int)]
+            if len(wt) == 1: out[name] = wt[0]
+        return out, fn
+    enc_text, ef = enc_table('visit_string', 4)
+    enc_bytes, ebf = enc_table('visit_byte_string', 4)
+    chk.require(len(enc_text) >= 3 and len(enc_bytes) >= 3, 'R06.4: encoder tag tables too small (%s, %s)' % (enc_text, enc_bytes))
+    # decoder: text strings
+    hs = [f for f in U.functions(facts, cls='basic_cbor_parser', name='handle_string') if f.get('body') is not None]
+    chk.require(hs, 'basic_cbor_parser::handle_string not found')
+    hfn = U.one_per_inst(hs)[0]
+    chk.analysed(hfn)
+    for sem, N in sorted(enc_text.items()):
+        if sem in ('bigint', 'bigdec', 'bigfloat'): continue      # written as tagged byte strings / arrays, not text
+        pe = P.PEval(facts, hfn, max_depth=1)
+        pe.exec_body(hfn, {('m', 'raw_tag_'): N})
+        got = set(str(e.args[0]).split('::')[-1] for e in pe.effects if e.kind == 'assign' and e.name == 'tag' and e.args and 'semantic_tag' in str(e.args[0]) and any('item_tag' in g and not g.startswith('!') for g in e.guards))
+        site = U.site(hfn, 'text tag %d <-> %s' % (N, sem))
+        if got == {sem}: chk.ok('R06.4', site, {'semantic_tag': sem, 'cbor_tag': N})
+        else: chk.fail('R06.4', site, hfn['file'], hfn['l'], 'encoder writes semantic_tag::%s on a text string as CBOR tag %d, but the decoder maps tag %d on a text string to %s' % (sem, N, N, sorted(got) or 'no tag'), None, hfn['q'])
+    # decoder: byte strings
+    rb = [f for f in U.functions(facts, cls='basic_cbor_parser', name='read_byte_string') if f.get('body') is not None and len(f['params']) == 3]
+    chk.require(rb, 'basic_cbor_parser::read_byte_string(Read, visitor, ec) not found')
+    rfn = U.one_per_inst(rb)[0]
+    chk.analysed(rfn)
+    for sem, N in sorted(enc_bytes.items()):
+        pe = P.PEval(facts, rfn, max_depth=1, max_effects=8000)
+        try: pe.exec_body(rfn, {('m', 'raw_tag_'): N})
+        except P.Stop: pass
+        got = set()
+        for e in pe.effects:
+            if e.kind == 'call' and e.name == 'visitor.byte_string_value' and len(e.args) > 1 and any('item_tag' in g and not g.startswith('!') for g in e.guards):
+                a = e.args[1]
+                got.add(names.get(a, str(a).split('::')[-1]) if not isinstance(a, str) else a.split('::')[-1])
+        site = U.site(rfn, 'byte string tag %d <-> %s' % (N, sem))
+        if got == {sem}: chk.ok('R06.4', site, {'semantic_tag': sem, 'cbor_tag': N})
+        else: chk.fail('R06.4', site, rfn['file'], rfn['l'], 'encoder writes semantic_tag::%s on a byte string as CBOR tag %d, but the decoder maps tag %d on a byte string to %s' % (sem, N, N, sorted(got) or 'no tag'), None, rfn['q'])
+
 def run(chk, tier, only_rule=None):
     chk.explanation = EXPLANATION
     chk.not_decided = NOT_DECIDED
@@ -303,3 +356,4 @@ def run(chk, tier, only_rule=None):
     for fn in one('basic_ubjson_encoder', 'visit_uint64'):
         check_ladder(chk, 'R06.ubjson', facts, fn, 'val', 0, U64, lambda v, o: ubjson_decode(v, o), {'tag': tag_none})
     r06_3(chk, tier)
+    r06_4(chk, tier)
